@@ -137,4 +137,10 @@ PROPS = {
             E("h26", "c04", "TestC04_Exhaustive", (8, 1500), (16, 10000)),
         ],
     },
+    "C06": {
+        "level": "exploration",
+        "units": [
+            R("h26", "c06", "TestC06_Model", (4000, 8, 1500), (300000, 16, 8000)),
+        ],
+    },
 }
